@@ -16,6 +16,7 @@ pub fn caseout_to_json(o: &CaseOut) -> Value {
     json!({
         "evals": o.evals,
         "nontrivial": o.nontrivial,
+        "nontrivial_count": o.nontrivial_count,
         "violations": o.violations.iter().map(|v| json!({"stream": v.stream, "case": v.case, "what": v.what, "detail": v.detail})).collect::<Vec<_>>(),
         "known": o.known.iter().map(|v| json!({"stream": v.stream, "case": v.case, "what": v.what, "detail": v.detail, "signature": v.signature})).collect::<Vec<_>>(),
         "counters": o.counters,
@@ -29,6 +30,7 @@ pub fn caseout_to_json(o: &CaseOut) -> Value {
 pub fn caseout_from_json(j: &Value) -> CaseOut {
     let mut o = CaseOut::default();
     o.evals = j["evals"].as_u64().unwrap_or(0);
+    o.nontrivial_count = j["nontrivial_count"].as_u64().unwrap_or(0);
     if let Some(a) = j["nontrivial"].as_array() {
         o.nontrivial = a.iter().filter_map(|x| x.as_u64()).collect();
     }
